@@ -499,18 +499,21 @@ TreeScope(ev) ==
        ev.after[l].t = ev.before[l].t /\ ev.after[l].v = ev.before[l].v
 TreeMasked(ev) ==
   \A l \in 1..Len(ev.before) : Maskable(ev.before[l]) => LeafMasked(ev, l) /\ KindAfter(ev, l)
-\* applied marks and metrics: set exactly when some mask matched (per mask: exactly when that mask matched)
+\* applied marks and metrics: set exactly when some mask matched (per mask: exactly when that mask matched IN THIS
+\* EVENT -- the result for an event is a function of (configuration, event) alone, whatever the instance has processed
+\* before: mechanism M_NoStateAcrossEvents, MaskSeq.tla).  A mask without applied_field (af = "") writes no field, a
+\* mask without metric_name (hm = FALSE) has no metric to look at.
 MatchedSomewhere(ev, i) == \E l \in 1..Len(ev.before) : Matched(ev, i, ev.before[l])
 TreeApplied(ev) ==
   LET any   == \E i \in 1..Len(ev.masks) : MatchedSomewhere(ev, i)
       added == SubSeq(ev.after, Len(ev.before) + 1, Len(ev.after))
       want  == (IF any THEN {<<ev.af>>} ELSE {})
-               \cup {<<ev.masks[i].af>> : i \in {j \in 1..Len(ev.masks) : MatchedSomewhere(ev, j)}}
+               \cup {<<ev.masks[i].af>> : i \in {j \in 1..Len(ev.masks) : ev.masks[j].af # "" /\ MatchedSomewhere(ev, j)}}
   IN /\ {added[k].p : k \in 1..Len(added)} = want
      /\ Len(added) = Cardinality(want)
      /\ \A k \in 1..Len(added) : added[k].t = "s" /\ added[k].v = <<49>>
      /\ ev.met = (IF any THEN 1 ELSE 0)
-     /\ \A i \in 1..Len(ev.masks) : (ev.mmet[i] > 0) <=> MatchedSomewhere(ev, i)
+     /\ \A i \in 1..Len(ev.masks) : IF ev.masks[i].hm THEN (ev.mmet[i] > 0) <=> MatchedSomewhere(ev, i) ELSE ev.mmet[i] = 0
 
 
 (* NUMBER AND INDEX OF MASKS.  Every predicate above speaks about one mask at a time (and, for a leaf two masks
